@@ -229,16 +229,31 @@ def minInts : List Int → Val
 def rangeVals (a b : Int) : List Val :=
   (List.range (b - a).toNat).map (fun (i : Nat) => Val.int (a + i))
 
+/-- `min(a, b)` / `max(a, b)` when one side is ±infinity (`np.inf`): the running minimum / maximum of a loop. -/
+def minMaxInf (isMin : Bool) (a b : Val) : Option Val :=
+  match a, b with
+  | .enum "float" "inf", y => if isMin then some y else some (.enum "float" "inf")
+  | .enum "float" "-inf", y => if isMin then some (.enum "float" "-inf") else some y
+  | x, .enum "float" "inf" => if isMin then some x else some (.enum "float" "inf")
+  | x, .enum "float" "-inf" => if isMin then some (.enum "float" "-inf") else some x
+  | _, _ => Option.none
+
 /-- the builtins of the fragment. -/
 def builtin (f : String) (args : List Val) : Option Val :=
   match f, args with
   | "max", [v] => match v.elems? with
       | some xs => (intsOf? xs).map maxInts
       | none => some (.err "max: not a sequence")
+  | "max", [a, b] => match minMaxInf false a b with
+      | some v => some v
+      | Option.none => (intsOf? [a, b]).map maxInts
   | "max", a :: b :: rest => (intsOf? (a :: b :: rest)).map maxInts
   | "min", [v] => match v.elems? with
       | some xs => (intsOf? xs).map minInts
       | none => some (.err "min: not a sequence")
+  | "min", [a, b] => match minMaxInf true a b with
+      | some v => some v
+      | Option.none => (intsOf? [a, b]).map minInts
   | "min", a :: b :: rest => (intsOf? (a :: b :: rest)).map minInts
   | "len", [v] => v.elems?.map (fun xs => .int xs.length)
   | "abs", [v] => v.asInt?.map (fun i => .int i.natAbs)
@@ -298,7 +313,10 @@ def eval (env : Env) (vs : Vars) : Expr → Val
   | .enumc c m => .enum c m
   | .attr e a => getAttr env (eval env vs e) a
   | .bin op a b => evalBin op (eval env vs a) (eval env vs b)
-  | .neg a => match (eval env vs a).asInt? with | some i => .int (-i) | none => .err "unary minus"
+  | .neg a => match eval env vs a with
+      | .enum "float" "inf" => .enum "float" "-inf"
+      | .enum "float" "-inf" => .enum "float" "inf"
+      | v => match v.asInt? with | some i => .int (-i) | none => .err "unary minus"
   | .not a => match (eval env vs a).truthy with | some b => .bool (!b) | none => .err "not: not a bool"
   | .and a b => match (eval env vs a).truthy with
       | some false => .bool false
